@@ -257,7 +257,7 @@ class Gen:
         s = [("base", i, name, [c.copy(ref=f"{name}.{c.name}" if (q or c.name == "k") else c.name) for c in cols])
              for i, (name, cols) in enumerate(self.schema.tables)]
         s += [("ref", i, name, [c.copy(ref=f"{name}.{c.name}" if q else c.name) for c in frame])
-              for i, (name, frame, _, _) in enumerate(self.lets)]
+              for i, (name, frame, _, _) in enumerate(self.lets) if not name.startswith("_h")]
         return s
 
     def pipeline(self, first_choice=None, forced=None):
@@ -634,6 +634,20 @@ class Gen:
     def tr_append(self, frame, sname):
         rng = self.rng
         tys = [c.ty for c in frame]
+        if self.append_inline and rng.random() < 0.7 and all(t in (INT, TXT, BOOL) for t in tys):
+            # bottom relation built to fit the top frame: an inline pipeline over some source with one expression per column
+            kind, idx, rname, rframe = rng.choice(self.sources())
+            eg = ExprGen(rng, rframe, depth=1)
+            items, sx = [], []
+            for j, t in enumerate(tys):
+                e = eg.col(t) if rng.random() < 0.7 else None
+                e = e or eg.gen(t, 1)
+                items.append(f"q{j} = {e[0]}")
+                sx.append(e[1])
+            hname = f"_h{len(self.lets)}"
+            self.lets.append((hname, [], "", f"( ( {kind} {idx} ) ( ( select ( " + " ".join(sx) + " ) ) ) )"))
+            nf = [c.copy(key=False) for c in frame]
+            return (f"append (from {rname} | select {{" + ", ".join(items) + "})", f"( append ( ref {len(self.lets) - 1} ) )", nf)
         srcs = [s for s in self.sources() if [c.ty for c in s[3]] == tys]
         if not srcs:
             return None
